@@ -207,10 +207,22 @@ pub fn sectors(src: &[u8]) -> Vec<Span> {
     (0..src.len()).step_by(16).map(|s| Span(s, (s + 16).min(src.len()))).collect()
 }
 
-pub const SINGLE_KINDS: [&str; 14] = [
+pub const SINGLE_KINDS: [&str; 15] = [
     "eof", "torn_tail", "lost_token", "lost_line", "lost_sector", "dup_token", "dup_line", "swap_tokens", "swap_lines",
-    "bit_flip", "byte_subst", "crlf", "token_subst", "token_insert",
+    "bit_flip", "byte_subst", "crlf", "token_subst", "token_insert", "own_subst",
 ];
+
+/// distinct token texts of a program, in order of first appearance
+pub fn own_vocabulary(src: &[u8]) -> Vec<Vec<u8>> {
+    let mut v: Vec<Vec<u8>> = Vec::new();
+    for t in tokens(src) {
+        let w = &src[t.0..t.1];
+        if !v.iter().any(|x| x == w) {
+            v.push(w.to_vec());
+        }
+    }
+    v
+}
 
 /// Size of the single-fault space of `kind` for `src`.
 pub fn space(kind: &str, src: &[u8]) -> usize {
@@ -230,6 +242,7 @@ pub fn space(kind: &str, src: &[u8]) -> usize {
         "crlf" => 1,
         "token_subst" => t * DICT.len(),
         "token_insert" => (t + 1) * DICT.len(),
+        "own_subst" => t * own_vocabulary(src).len(),
         _ => 0,
     }
 }
@@ -273,6 +286,12 @@ pub fn nth(kind: &str, src: &[u8], idx: usize) -> SrcFault {
         "token_subst" => {
             let s = tokens(src)[idx / DICT.len()];
             SrcFault::TokenSubst(s.0, s.1, DICT[idx % DICT.len()].to_string())
+        }
+        "own_subst" => {
+            // token retyped as another token of the same program (a name or operator that exists there)
+            let voc = own_vocabulary(src);
+            let s = tokens(src)[idx / voc.len()];
+            SrcFault::TokenSubst(s.0, s.1, String::from_utf8_lossy(&voc[idx % voc.len()]).to_string())
         }
         "token_insert" => {
             let t = tokens(src);
